@@ -77,6 +77,93 @@ REVIEWED = {
 }
 
 
+def received_index(chk, w):
+    """OUTIDX: a found note is reported with its output's index IN THE TRANSACTION, and its commitment-tree
+    position is computed from that index (start + index). In find_received the index handed to
+    WalletOutput::from_parts and to the position closure must come from an `enumerate` over the unfiltered
+    sequence of the transaction's outputs: an enumeration applied after a filter / filter_map / skip counts
+    only the wallet's own outputs, so an output that follows a foreign one gets the wrong index, position
+    and nullifier."""
+    import closures
+    roots = [f for f in w.fns.values() if f.p == "zcash_client_backend::scanning::find_received"]
+    if len(roots) != 1:
+        chk.fail("OUTIDX", "missing", "find_received not found")
+        return
+    root = roots[0]
+    n = 0
+    for f in [root] + [g for g in w.fns.values() if g.is_closure() and g.root == root.id]:
+        b = f.body
+        du = closures.deep()(b)
+        for bb, t in b.calls():
+            if b.blocks[bb].cleanup:
+                continue
+            if t.callee.indirect is None and re.search(r"WalletOutput::<.*>::from_parts$|WalletOutput::from_parts$", t.callee.target_p()):
+                idx = defuse.show(closures.norm(du.origin(t.args[0])))
+                # the position closure is called with the same index
+                pos = [defuse.show(closures.norm(du.origin(a))) for a in t.args]
+                n += 1
+                m = re.search(r"enumerate\((.*)\)\)\) as Some\)\.0\.0$", idx)
+                src = m.group(1) if m else None
+                bad = src is None or re.search(r"\b(filter|filter_map|skip|skip_while|take|take_while|step_by|rev|flatten|flat_map|chain)\(", src)
+                same = any(("call(" in x or "note_position" in x) and idx in x for x in pos[1:])
+                if not bad and same:
+                    chk.ok("OUTIDX", "find_received: the reported index and the position closure's argument are the "
+                           "enumeration index over the transaction's unfiltered outputs", sample=True)
+                elif bad:
+                    chk.fail("OUTIDX", "find_received/index", "the index given to WalletOutput::from_parts is %s: not the "
+                             "position of the output in the transaction's full output sequence" % idx[:140], t.span.loc())
+                else:
+                    chk.fail("OUTIDX", "find_received/position", "the note's tree position is not computed from the same index "
+                             "as the one reported", t.span.loc())
+    if n < 1:
+        chk.fail("OUTIDX", "site", "no WalletOutput::from_parts call found in find_received")
+
+
+def spend_attribution(chk, w):
+    """ATTRIB: a detected spend is attributed to the account that tracks THE MATCHING nullifier. In
+    find_spent every constant-time selection of an account (CtOption::new(account, choice) or
+    conditional_select(.., &account, choice)) must be keyed on `nf.ct_eq(&spend_nf)` for the nullifier that
+    sits in the same tracked pair as that account - not on an accumulated "seen a match" flag, which hands
+    the spend to whichever account comes later in the list."""
+    import closures
+    roots = [f for f in w.fns.values() if f.p == "zcash_client_backend::scanning::find_spent"]
+    if len(roots) != 1:
+        chk.fail("ATTRIB", "missing", "find_spent not found")
+        return
+    root = roots[0]
+    n = 0
+    for f in [root] + [g for g in w.fns.values() if g.is_closure() and g.root == root.id]:
+        b = f.body
+        du = closures.deep()(b)
+        for bb, t in b.calls():
+            if b.blocks[bb].cleanup or t.callee.indirect is not None:
+                continue
+            nm = t.callee.target_p()
+            if nm.endswith("CtOption::<T>::new") and len(t.args) == 2:
+                val, choice = t.args[0], t.args[1]
+            elif nm.endswith("conditional_select") and len(t.args) == 3:
+                val, choice = t.args[1], t.args[2]
+            else:
+                continue
+            vo = closures.norm(du.origin(val))
+            # only selections of an account taken from a tracked (account, nullifier) pair
+            if not (vo[0] == "field" and vo[2] == ".0" and vo[1][0] in ("arg", "local", "field", "deref")):
+                continue
+            co = closures.norm(du.origin(choice))
+            n += 1
+            pair = vo[1]
+            good = co[0] == "call" and co[1].endswith("::ct_eq") and len(co[2]) == 2 and \
+                ("field", pair, ".1") in [closures.norm(x) for x in co[2]]
+            if good:
+                chk.ok("ATTRIB", "find_spent: the account of a tracked pair is selected exactly when that pair's nullifier "
+                       "equals the spent one", sample=True)
+            else:
+                chk.fail("ATTRIB", "find_spent/choice", "an account is selected under `%s`, which is not the equality of its own "
+                         "pair's nullifier with the spent nullifier" % defuse.show(co)[:100], t.span.loc())
+    if n < 1:
+        chk.fail("ATTRIB", "site", "no account selection from a tracked (account, nullifier) pair found in find_spent")
+
+
 def main(tier):
     chk = Check("C05", "other", tier)
     chk.explanation = (
@@ -98,6 +185,8 @@ def main(tier):
                       "fallback", floor=1)
     chk.rule("ONCE", "output indices are assigned by one enumeration per transaction", floor=2)
     chk.rule("SCOPE", "a scanning key's ivk, nk and reported scope are one scope's", floor=3)
+    chk.rule("OUTIDX", "a found note's index and position come from the enumeration of all outputs", floor=1)
+    chk.rule("ATTRIB", "a spend is attributed to the account tracking the matching nullifier", floor=1)
     chk.rule("control", "positive controls", floor=1)
 
     ps_rules.ps1(chk, FILES)
@@ -115,6 +204,8 @@ def main(tier):
     guards(chk, w)
     order(chk, w)
     scope_coherence(chk, w)
+    received_index(chk, w)
+    spend_attribution(chk, w)
     prior_first(chk, w)
     index_once(chk, w)
     pf(chk, w)
